@@ -253,8 +253,8 @@ def exec (cfg : Cfg) : Nat → Ctx → Sh → St → Out × St
          | (.fuel, s1) => (.fuel, s1))
     | .catch_ body =>
       -- do_catch (src/frame.c).
-      -- `if (!save_context (&econ)) error ("*Can't catch too deep recursion error.")`; at full depth the master's
-      -- error handler cannot be applied either ("Too deep recursion" inside it), which sets ES_STACK_FULL
+      -- `if (!save_context (&econ)) { set_error_state (ES_STACK_FULL); error ("*Can't catch too deep recursion error."); }`
+      -- (fix 187b28d, site catchAtDepthMarked: before it the bit only arrived through the failing apply of the master's handler)
       if s.depth - 1 == cfg.maxDepth - 1 then
         raise cfg ctx .deep (mark 4 (setEs s esStackFull))
       else
